@@ -54,7 +54,15 @@ Print Assumptions unzip_confined.
 
 (* Lexical containment of a relative path is preserved when both are anchored at any absolute working directory
    (component-wise resolution on a tree without symbolic links: ".." pops, at the root it stays) — so [within] on the
-   relative names the library passes to the back end means containment of the physical locations. *)
+   relative names the library passes to the back end means containment of the physical locations.
+   ASSUMPTION: the destination tree is LINK-FREE, before and during the extraction.  The model creates regular files and
+   directories only (zip.go restores every entry kind - symlink, fifo, socket, device, setuid bits - as a regular file or a
+   directory), so an archive cannot introduce a link; a change that restored symlink-kind entries as links would make
+   lexical containment ([within], unzip_confined) say nothing about the physical location of later entries below such a
+   link.  That side is checked by the harness, not by a theorem: archives carry every kind the mode bits can express with
+   entries below them in both orders, and every mutating back-end call's path is resolved element by element through the
+   actual OS file system at the time of the call (signature outside-physical:os), next to the snapshot of everything outside
+   the destination (kinds, link targets, hashes, mtimes). *)
 Theorem within_physical : forall cwd d p,
   rooted cwd = true -> rooted d = false -> within d p ->
   within (cwd ++ slash :: d) (cwd ++ slash :: p).
